@@ -224,11 +224,12 @@ func c20TrieSource(kvs []c20KV) *c20Source {
 }
 
 var (
-	c20EOA      = common.MustNewAddressFromString("hx0000000000000000000000000000000000000011")
-	c20Contract = common.MustNewAddressFromString("cx0000000000000000000000000000000000000022")
-	c20Val      = common.MustNewAddressFromString("hx0000000000000000000000000000000000000033")
-	c20Code     = []byte("verif contract code " + strings.Repeat("c", 60))
-	c20Store    = [][2]string{{"\x00\x11", strings.Repeat("s", 40)}, {"\x00\x12", strings.Repeat("t", 40)}, {"\x01", "u"}}
+	c20EOA       = common.MustNewAddressFromString("hx0000000000000000000000000000000000000011")
+	c20Contract  = common.MustNewAddressFromString("cx0000000000000000000000000000000000000022")
+	c20Val       = common.MustNewAddressFromString("hx0000000000000000000000000000000000000033")
+	c20Contract2 = common.MustNewAddressFromString("cx0000000000000000000000000000000000000044")
+	c20Code      = []byte("verif contract code " + strings.Repeat("c", 60))
+	c20Store     = [][2]string{{"\x00\x11", strings.Repeat("s", 40)}, {"\x00\x12", strings.Repeat("t", 40)}, {"\x01", "u"}}
 )
 
 // c20WorldSource: variant 1 = small, 2 = large, 3 = large and the contract code
@@ -253,6 +254,7 @@ func c20WorldSource(variant int) *c20Source {
 
 func c20WorldSourceWithCode(variant int, c20Code []byte) *c20Source {
 	large := variant >= 2
+	twin := variant == 4
 	rec := &c20RecDB{inner: db.NewMapDB()}
 	ws := state.NewWorldState(rec, nil, nil, nil, nil)
 	ws.GetAccountState(c20EOA.ID()).SetBalance(big.NewInt(1000))
@@ -266,13 +268,22 @@ func c20WorldSourceWithCode(variant int, c20Code []byte) *c20Source {
 	for _, kv := range store {
 		ca.SetValue([]byte(kv[0]), []byte(kv[1]))
 	}
+	if twin {
+		// a second contract account with byte-identical storage trie and code
+		cb := ws.GetAccountState(c20Contract2.ID())
+		cb.InitContractAccount(c20EOA)
+		cb.DeployContract(c20Code, state.JavaEE, "application/java", nil, []byte("deploy-tx-hash-0123456789abcdef0"))
+		for _, kv := range store {
+			cb.SetValue([]byte(kv[0]), []byte(kv[1]))
+		}
+	}
 	if large {
 		v, _ := state.ValidatorFromAddress(c20Val)
 		ws.GetValidatorState().Add(v)
 	}
 	wss := ws.GetSnapshot()
 	wss.Flush()
-	s := &c20Source{name: fmt.Sprintf("world{EOA, contract(code,%d storage entries), validators=%v, code-is-a-storage-trie-node=%v}", len(store), large, variant == 3), world: true,
+	s := &c20Source{name: fmt.Sprintf("world{EOA, contract(code,%d storage entries), validators=%v, code-is-a-storage-trie-node=%v, twin-contract=%v}", len(store), large, variant == 3, twin), world: true,
 		root: wss.StateHash(), vhash: wss.GetValidatorSnapshot().Hash(), items: c20Collect(rec)}
 	s.index()
 	s.start = func(b merkle.Builder) (interface{}, error) {
@@ -294,21 +305,27 @@ func c20WorldSourceWithCode(variant int, c20Code []byte) *c20Source {
 		if a == nil || a.GetBalance().Cmp(big.NewInt(1000)) != 0 {
 			return "EOA balance not rebuilt"
 		}
-		c := w2.GetAccountSnapshot(c20Contract.ID())
-		if c == nil || !c.IsContract() {
-			return "contract account not rebuilt"
+		addrs := []*common.Address{c20Contract}
+		if twin {
+			addrs = append(addrs, c20Contract2)
 		}
-		for _, kv := range store {
-			if v, err := c.GetValue([]byte(kv[0])); err != nil || string(v) != kv[1] {
-				return fmt.Sprintf("contract storage %x = %q err=%v", kv[0], v, err)
+		for _, ad := range addrs {
+			c := w2.GetAccountSnapshot(ad.ID())
+			if c == nil || !c.IsContract() {
+				return "contract account not rebuilt"
 			}
-		}
-		nc := c.NextContract()
-		if nc == nil {
-			return "next contract missing"
-		}
-		if code, err := nc.Code(); err != nil || !bytes.Equal(code, c20Code) {
-			return fmt.Sprintf("contract code not rebuilt (err=%v)", err)
+			for _, kv := range store {
+				if v, err := c.GetValue([]byte(kv[0])); err != nil || string(v) != kv[1] {
+					return fmt.Sprintf("contract storage %x = %q err=%v", kv[0], v, err)
+				}
+			}
+			nc := c.NextContract()
+			if nc == nil {
+				return "next contract missing"
+			}
+			if code, err := nc.Code(); err != nil || !bytes.Equal(code, c20Code) {
+				return fmt.Sprintf("contract code not rebuilt (err=%v)", err)
+			}
 		}
 		return ""
 	}
@@ -462,6 +479,92 @@ func c20ObjSource(o c20Obj) *c20Source {
 	return s
 }
 
+// ---- two tries sharing all nodes, resolved through ONE builder ----
+//
+// An index trie key -> sha3(blob) (plain bytes) and an object trie
+// key -> blob object have byte-identical nodes, so every node hash is requested
+// for the same bucket by two requesters with different follow-ups (only the
+// object trie goes on to request the blobs). Both registration orders.
+
+type c20Pair struct {
+	Keys     []string `json:"keys_hex"`
+	ObjFirst bool     `json:"object_trie_registers_first"`
+}
+
+func c20EnumeratePairs() []c20Pair {
+	var out []c20Pair
+	n := len(c20ObjKeys)
+	for m := 1; m < 1<<uint(n); m++ {
+		var ks []string
+		for i := 0; i < n; i++ {
+			if m&(1<<uint(i)) != 0 {
+				ks = append(ks, hex.EncodeToString([]byte(c20ObjKeys[i])))
+			}
+		}
+		if len(ks) > 3 {
+			continue
+		}
+		out = append(out, c20Pair{ks, false}, c20Pair{ks, true})
+	}
+	return out
+}
+
+func c20PairSource(o c20Pair) *c20Source {
+	rec := &c20RecDB{inner: db.NewMapDB()}
+	blobs := make([][]byte, len(o.Keys))
+	idx := ompt.NewMutable(rec, nil)
+	obj := ompt.NewMutableForObject(rec, nil, c20BlobType)
+	for i, kh := range o.Keys {
+		k, _ := hex.DecodeString(kh)
+		blobs[i] = []byte(fmt.Sprintf("payload of entry %d %s", i, strings.Repeat("p", 30)))
+		idx.Set(k, crypto.SHA3Sum256(blobs[i]))
+		obj.Set(k, c20NewBlob(rec, blobs[i]))
+	}
+	is, os := idx.GetSnapshot(), obj.GetSnapshot()
+	is.Flush()
+	os.Flush()
+	s := &c20Source{name: fmt.Sprintf("pair{index trie + object trie over keys %v, object trie first=%v}", o.Keys, o.ObjFirst), root: os.Hash(), items: c20Collect(rec)}
+	s.index()
+	same := bytes.Equal(is.Hash(), os.Hash())
+	s.start = func(b merkle.Builder) (interface{}, error) {
+		if !same {
+			return nil, fmt.Errorf("harness: index trie and object trie do not share their root")
+		}
+		it := ompt.NewImmutable(b.Database(), s.root)
+		ot := ompt.NewImmutableForObject(b.Database(), s.root, c20BlobType)
+		if o.ObjFirst {
+			ot.Resolve(b)
+			it.Resolve(b)
+		} else {
+			it.Resolve(b)
+			ot.Resolve(b)
+		}
+		return []interface{}{it, ot}, nil
+	}
+	s.verify = func(target db.Database) string {
+		it := ompt.NewImmutable(target, s.root)
+		ot := ompt.NewImmutableForObject(target, s.root, c20BlobType)
+		bk, _ := target.GetBucket(db.BytesByHash)
+		for i, kh := range o.Keys {
+			k, _ := hex.DecodeString(kh)
+			h, err := it.Get(k)
+			if err != nil || !bytes.Equal(h, crypto.SHA3Sum256(blobs[i])) {
+				return fmt.Sprintf("index trie: Get(%x) = %x err=%v", k, h, err)
+			}
+			ob, err := ot.Get(k)
+			if err != nil || ob == nil {
+				return fmt.Sprintf("object trie: Get(%x) = %v err=%v", k, ob, err)
+			}
+			data, err := bk.Get(ob.Bytes())
+			if err != nil || !bytes.Equal(data, blobs[i]) {
+				return fmt.Sprintf("object trie: payload of key %x not in the target store (present=%v err=%v)", k, data != nil, err)
+			}
+		}
+		return ""
+	}
+	return s
+}
+
 // ---- forged payloads ----
 
 const (
@@ -499,11 +602,12 @@ type c20Inst struct {
 }
 
 type c20Case struct {
-	Source string  `json:"source"`
-	World  int     `json:"world,omitempty"` // 1 small, 2 large, 3 large with code == storage trie node
-	Obj    *c20Obj `json:"object_trie,omitempty"`
-	KVs    []c20KV `json:"map,omitempty"`
-	Ops    []int   `json:"ops"`
+	Source string   `json:"source"`
+	World  int      `json:"world,omitempty"` // 1 small, 2 large, 3 large with code == storage trie node, 4 two identical contracts
+	Pair   *c20Pair `json:"trie_pair,omitempty"`
+	Obj    *c20Obj  `json:"object_trie,omitempty"`
+	KVs    []c20KV  `json:"map,omitempty"`
+	Ops    []int    `json:"ops"`
 }
 
 type c20Ctx struct {
@@ -773,7 +877,7 @@ func c20Run(cx *c20Ctx, src *c20Source, cs c20Case, hist []byte) (string, bool) 
 		cs.Ops = append(cs.Ops, int(o))
 		last := i == len(hist)-2
 		if last {
-			in.invariants(cx, c20Case{cs.Source, cs.World, cs.Obj, cs.KVs, cs.Ops[:i]})
+			in.invariants(cx, c20Case{cs.Source, cs.World, cs.Pair, cs.Obj, cs.KVs, cs.Ops[:i]})
 		}
 		if !in.apply(cx, int(o), cs, last) {
 			return "", false
@@ -845,6 +949,9 @@ func c20SourceOf(c c20Case) *c20Source {
 	if c.Obj != nil {
 		return c20ObjSource(*c.Obj)
 	}
+	if c.Pair != nil {
+		return c20PairSource(*c.Pair)
+	}
 	return c20TrieSource(c.KVs)
 }
 
@@ -861,7 +968,7 @@ func TestVerifC20(t *testing.T) {
 			h = append(h, byte(o))
 		}
 		fmt.Println("replaying", src.describe(c))
-		c20Run(cx, src, c20Case{Source: c.Source, World: c.World, KVs: c.KVs, Obj: c.Obj}, h)
+		c20Run(cx, src, c20Case{Source: c.Source, World: c.World, KVs: c.KVs, Obj: c.Obj, Pair: c.Pair}, h)
 		r.Finish(false)
 		return
 	}
@@ -870,7 +977,7 @@ func TestVerifC20(t *testing.T) {
 		nk, nv, maxN, ordersUpTo = 9, 3, 5, 8
 	}
 	maps := c20Enumerate(c20AllKeys[:nk], c20AllVals[:nv], maxN)
-	r.Rule(fmt.Sprintf("sources: every map with 1..%d entries over %d keys (hex %x) x %d values (40-byte -> hashed nodes, 1-byte -> embedded nodes) = %d tries, plus 2 world states (EOA + contract account with nested storage trie, contract code in the bytes-by-hash bucket, validator list). Per source an explicit-state BFS to the fixpoint: state = set of delivered items + outstanding requests reported by the real builder; events = deliver item i of the source (requested / delivered before / genuine but not requested yet) and %d forged payloads; every transition replayed on a fresh real builder (layerDB over a recording MapDB). Sources with <= %d items: every complete delivery order enumerated without de-duplication. Non-trivial = distinct (source, state)",
+	r.Rule(fmt.Sprintf("sources: every map with 1..%d entries over %d keys (hex %x) x %d values (40-byte -> hashed nodes, 1-byte -> embedded nodes) = %d tries, plus 4 world states (EOA + contract account with nested storage trie, contract code in the bytes-by-hash bucket, validator list; one whose code is byte-identical to a storage trie node; one with two contracts sharing storage trie and code), 72 object tries in which a value blob is byte-identical to a trie node (one hash in two buckets), and 50 pairs of an index trie and an object trie with byte-identical nodes resolved through one builder in both registration orders (one (bucket, hash) requested by two requesters with different follow-ups). Per source an explicit-state BFS to the fixpoint: state = set of delivered items + outstanding requests reported by the real builder; events = deliver item i of the source (requested / delivered before / genuine but not requested yet) and %d forged payloads; every transition replayed on a fresh real builder (layerDB over a recording MapDB). Sources with <= %d items: every complete delivery order enumerated without de-duplication. Non-trivial = distinct (source, state)",
 		maxN, nk, c20AllKeys[:nk], nv, len(maps), c20NumForged, ordersUpTo))
 	r.Assume("the order in which Requests() lists outstanding requests is not part of the state (OnData looks requests up by hash)",
 		"source and target stores are MapDBs that never fail; single goroutine",
@@ -883,7 +990,7 @@ func TestVerifC20(t *testing.T) {
 		sources = append(sources, s)
 		cases = append(cases, c20Case{Source: s.name, KVs: m})
 	}
-	for w := 1; w <= 3; w++ {
+	for w := 1; w <= 4; w++ {
 		s := c20WorldSource(w)
 		sources = append(sources, s)
 		cases = append(cases, c20Case{Source: s.name, World: w})
@@ -902,6 +1009,13 @@ func TestVerifC20(t *testing.T) {
 		sources = append(sources, s)
 		cases = append(cases, c20Case{Source: s.name, Obj: &o})
 	}
+	for _, o := range c20EnumeratePairs() {
+		o := o
+		s := c20PairSource(o)
+		sources = append(sources, s)
+		cases = append(cases, c20Case{Source: s.name, Pair: &o})
+	}
+	r.Set("trie_pair_sources_two_requesters_with_different_followups", len(c20EnumeratePairs()))
 	r.Sanity(nObjShared >= 20, "only %d object-trie sources with a hash in two buckets", nObjShared)
 	r.Set("sources_with_a_hash_in_two_buckets", nObjShared+1)
 	var mu sync.Mutex
